@@ -38,6 +38,10 @@ TARGETS = [
     ("lib/mergefiles.c", "add_new_groups"),
     # the caller of the three: allocation of the result and its array (calloc, malloc, the address of a local), the calls, the assignments
     ("lib/libeconf.c", "econf_mergeFiles"),
+    # getters: results through out-parameters (`*length`, `*groups`, `(*groups)[*length]`)
+    ("lib/libeconf.c", "econf_getGroups"),
+    # calloc of an array of flags / of pointers (allocation + a loop that stores the zeros)
+    ("lib/libeconf.c", "econf_getKeys"),
 ]
 
 # struct types whose members become word slots (one per member, in declaration order)
@@ -437,7 +441,7 @@ class FnTr:
             rec = record_of(q)
             if rec:
                 return "(.lit %d .u64)" % len(layout(self.path, rec))
-            if q.endswith("*") or q == "char":
+            if q.endswith("*") or q in ("char", "_Bool", "bool"):
                 return "(.lit 1 .u64)"
             raise Unsupported("sizeof(%s)" % q)
         if k == "CallExpr" and self.callee_name(n) == "realloc":
@@ -480,6 +484,43 @@ class FnTr:
             pre, e = self.top(self.inner(call)[1])        # sizeof(struct T) counts words, so the argument is a number of words
             return pre, "(.call \"malloc_words\" (.cons %s .nil))" % e
         return self.top(n)
+
+    def calloc_array(self, lv, target_type, call):
+        """`lv = calloc(N, sizeof(T))` for an array of one-byte flags (`bool *lv`, `sizeof(bool)`) or of pointers (`T **lv`, `sizeof(T *)`):
+        the allocation (bytes / words), then a loop over two new variables that stores the N zeros (NULL pointers); N is evaluated once.
+        -> statements, or None when the call has another form"""
+        def unwrap(x):
+            while x.get("kind") in ("ImplicitCastExpr", "ParenExpr", "CStyleCastExpr"):
+                x = self.inner(x)[0]
+            return x
+        args = self.inner(call)[1:]
+        if len(args) != 2 or not target_type.endswith("*"):
+            return None
+        elem = target_type[:-1].strip()
+        sz = unwrap(args[1])
+        if not (sz.get("kind") == "UnaryExprOrTypeTraitExpr" and sz.get("name") == "sizeof" and sz.get("argType")):
+            return None
+        q = clean_type({"type": sz["argType"]})
+        if elem in ("_Bool", "bool") and q in ("_Bool", "bool"):
+            words = False
+        elif elem.endswith("*") and q.endswith("*"):
+            words = True
+        else:
+            return None
+        if self.has_user_call(args[0]):
+            return None
+        tn, ti = self.new_temp(), self.new_temp()
+        count = self.guarded(args[0])
+        out = ["(.expr (.assign (.var %d) %s .u64))" % (tn, count)]
+        size = "(.bin .mul (.load (.var %d) .u64) (.lit 1 .u64) .u64)" % tn
+        out.append("(.expr (.assign %s (.call \"%s\" (.cons %s .nil)) .ptr))" % (lv, "malloc_words" if words else "malloc", size))
+        if words:
+            store = "(.expr (.assign (.slot (.sidx (.load %s .ptr) (.load (.var %d) .u64) 1) 0) .null .ptr))" % (lv, ti)
+        else:
+            store = "(.expr (.assign (.deref (.bin .add (.load %s .ptr) (.load (.var %d) .u64) .ptr)) (.cast .bool (.lit 0 .i32)) .bool))" % (lv, ti)
+        out.append("(.expr (.assign (.var %d) (.cast .u64 (.lit 0 .i32)) .u64))" % ti)
+        out.append("(.for (some (.bin .lt (.load (.var %d) .u64) (.load (.var %d) .u64) .i32)) (some (.incdec (.var %d) true true .u64)) %s)" % (ti, tn, ti, store))
+        return out
 
     # ----- calls of translated functions (inlined)
     def strip(self, n):
@@ -548,6 +589,11 @@ class FnTr:
                     if self.is_user_call(init[0]):
                         out += self.user_call(init[0], target, ty)
                     else:
+                        c0 = self.strip(init[0])
+                        arr = self.calloc_array(target, clean_type(v), c0) if c0.get("kind") == "CallExpr" and self.callee_name(c0) == "calloc" else None
+                        if arr is not None:
+                            out += arr
+                            continue
                         pre, e = self.top_alloc(init[0], clean_type(v))
                         out += pre
                         out.append("(.expr (.assign %s %s .%s))" % (target, e, ty))
@@ -627,6 +673,10 @@ class FnTr:
                     return x
                 one = unwrap(args[0])
                 sz = unwrap(args[1])
+                if rec is None:
+                    arr = self.calloc_array(self.lval(a), clean_type(a), call)
+                    if arr is not None:
+                        return arr
                 if rec is None or one.get("kind") != "IntegerLiteral" or one.get("value") != "1" or \
                         not (sz.get("kind") == "UnaryExprOrTypeTraitExpr" and record_of(clean_type({"type": sz.get("argType", {})})) == rec):
                     raise Unsupported("calloc other than calloc(1, sizeof(struct)) assigned to a pointer to that struct")
